@@ -94,7 +94,11 @@ func (s Scaler) ScaleKeys(buckets, min, max int64) []int64 {
 
 	ret := make([]int64, 0, buckets)
 	for i := int64(0); i < buckets; i++ {
-		val := int64(s.unmapVal((maxf10-minf10)*float64(i)/float64(buckets-1) + minf10))
+		fval := s.unmapVal((maxf10-minf10)*float64(i)/float64(buckets-1) + minf10)
+		val := int64(fval)
+		if fval >= math.MaxInt64 { // beyond int64: the conversion would wrap to MinInt64
+			val = math.MaxInt64
+		}
 		if i == 0 || ret[len(ret)-1] != val {
 			ret = append(ret, val)
 		}
